@@ -1282,8 +1282,10 @@ def solve_ivp(fun, t_span, y0, method='RK45', t_eval=None, dense_output=False,
         fn = fun
         while isinstance(fn, DiffRHS):
             fn = fn.rhs
-        fn_args_kwargs = inspect.getfullargspec(fn)
-        constants = {key:value for key,value in zip(fn_args_kwargs[0][2:], args)}
+        # (inspect.signature leaves out the bound `self` of a method or of a callable object, getfullargspec does not)
+        fn_params = [param.name for param in inspect.signature(fn).parameters.values()
+                     if param.kind in (param.POSITIONAL_ONLY, param.POSITIONAL_OR_KEYWORD)]
+        constants = {key:value for key,value in zip(fn_params[2:], args)}
         
     max_step = options.get("max_step", np.inf)
     min_step = options.get("min_step", 0.0)
